@@ -43,7 +43,9 @@
  *   <dump> = { D<i>[<wd>><w>,..]} for every live instance, from the real tree
  *   FATAL  for the op in which iv_fatal was called and every later op
  */
+#ifndef _GNU_SOURCE
 #define _GNU_SOURCE
+#endif
 #include <errno.h>
 #include <inttypes.h>
 #include <setjmp.h>
